@@ -628,7 +628,7 @@ func init() {
 	reg.Register(reg.Check{Property: "C21", Level: "model_checking", Run: func(run *ev.Run) {
 		depth, deadline := 4, 85*time.Second
 		if ev.Tier() == "thorough" {
-			depth, deadline = 6, 15*time.Minute
+			depth, deadline = 5, 15*time.Minute
 		}
 		cfg := bfs.Config{Scenario: "c21", MaxDepth: depth + 1, Deadline: deadline}
 		st := bfs.Explore(cfg, run)
